@@ -89,6 +89,7 @@ class GenCfg:
     corr_base: int = 100             # first correlation id of rank 0
     corr_stride: int = 100           # distance between the id ranges of consecutive ranks (0: every rank uses the same ids)
     p_unlisted_launch: float = 0.0   # a launch goes through a runtime call that is not in HTA's launch-name list
+    p_nested_annotation: float = 0.0 # a child slot of an operator becomes a user annotation that wraps further operators
 
 
 @dataclass
@@ -265,7 +266,9 @@ class _Sim:
         for _ in range(n_children):
             yield t
             r = rng.random()
-            if depth < cfg.max_depth and r < 0.45:
+            if depth < cfg.max_depth and rng.random() < cfg.p_nested_annotation:
+                t = yield from self.annotation(tid, "my_region", t, rng.randint(1, 2), names, depth=depth + 1)
+            elif depth < cfg.max_depth and r < 0.45:
                 t = yield from self.op(tid, t, depth + 1, names)
             else:
                 t = self.leaf(tid, t)
